@@ -13,6 +13,8 @@ import (
 	"runtime/debug"
 	"strconv"
 	"strings"
+	"sync"
+	"sync/atomic"
 
 	sentinel "github.com/alibaba/sentinel-golang/api"
 	"github.com/alibaba/sentinel-golang/core/base"
@@ -58,6 +60,8 @@ type Interp struct {
 	log    []string
 	iso    []*isolation.Rule
 	hot    []*hotspot.Rule
+	soaked bool
+	soakAt uint64
 }
 
 func New() vh.Interp {
@@ -95,6 +99,7 @@ func (it *Interp) Reset() {
 	it.order = nil
 	it.log = nil
 	it.iso, it.hot = nil, nil
+	it.soaked = false
 	// new epoch: at least two array intervals after the last instant used
 	it.base += (it.maxRel/10000 + 3) * 10000
 	it.maxRel = 0
@@ -259,6 +264,65 @@ func node(key string) *stat.ResourceNode {
 	return stat.GetResourceNode(key)
 }
 
+// --- many goroutines ----------------------------------------------------------------------------
+
+func lcg(x uint64) uint64 { return (x*1103515245 + 12345) % 2147483648 }
+
+// soak: G goroutines, each N times Entry -> (TraceError) -> Exit on resources s0..s(R-1), truly in parallel
+// (GOMAXPROCS is raised for the duration), all at one instant of the virtual clock.  Every Entry must pass.
+func (it *Interp) soak(G, N int, R, seed uint64) string {
+	it.soaked, it.soakAt = true, it.clk.CurrentTimeMillis()
+	old := runtime.GOMAXPROCS(8)
+	defer runtime.GOMAXPROCS(old)
+	custom := it.chain("c/N/p/S")
+	var wg sync.WaitGroup
+	bad := int32(0)
+	for g := 0; g < G; g++ {
+		wg.Add(1)
+		go func(g int) {
+			defer wg.Done()
+			x := lcg(seed + uint64(g)*7919)
+			for i := 0; i < N; i++ {
+				x1 := lcg(x)
+				x2 := lcg(x1)
+				x3 := lcg(x2)
+				x4 := lcg(x3)
+				x = x4
+				res := "s" + strconv.FormatUint(x1%R, 10)
+				opts := []sentinel.EntryOption{sentinel.WithBatchCount(uint32(x3%3 + 1))}
+				if x2%2 == 0 {
+					opts = append(opts, sentinel.WithTrafficType(base.Inbound))
+				}
+				if g%2 == 1 {
+					opts = append(opts, sentinel.WithSlotChain(custom))
+				}
+				e, b := sentinel.Entry(res, opts...)
+				if e == nil || b != nil {
+					atomic.AddInt32(&bad, 1)
+					continue
+				}
+				if x4%3 == 1 {
+					sentinel.TraceError(e, &tagErr{"t"})
+				}
+				if x4%3 == 2 {
+					e.Exit(base.WithError(&tagErr{"x"}))
+				} else {
+					e.Exit()
+				}
+				if i%7 == 3 {
+					e.Exit(base.WithError(&tagErr{"late"})) // late call while other goroutines reuse the context
+				}
+				runtime.Gosched()
+			}
+		}(g)
+	}
+	wg.Wait()
+	if bad != 0 {
+		return fmt.Sprintf("blocked %d", bad)
+	}
+	return "ok"
+}
+
 // --- ops ---------------------------------------------------------------------------------------
 
 func (it *Interp) Step(t []string, op string) string {
@@ -338,6 +402,9 @@ func (it *Interp) Step(t []string, op string) string {
 		x.exited = true
 		return ""
 	case "read":
+		if t[2] == "maxconc" && it.soaked && it.clk.CurrentTimeMillis() < it.soakAt+1000 {
+			return "?" // the peak reached inside a soak depends on the schedule
+		}
 		n := node(t[1])
 		if n == nil {
 			return "nil"
@@ -372,6 +439,8 @@ func (it *Interp) Step(t []string, op string) string {
 		case "args":
 			return vh.List(showArgs(x.e.Context().Input.Args))
 		}
+	case "soak":
+		return it.soak(int(vh.U(t[1])), int(vh.U(t[2])), vh.U(t[3]), vh.U(t[4]))
 	case "reclog":
 		r := vh.List(it.log)
 		it.log = nil
